@@ -19,6 +19,10 @@ const DIRECTIONS: &[&str] = &[
     "wide-application",
     // a continuation captured at the bottom of a non-tail recursion 10^d deep, re-entered from a later top-level form
     "continuation-at-depth",
+    // a use of a recursive macro (my-or) with 10^3 operands: the transformer nests one expansion per operand until the
+    // expansion limit (1000) or the end of the operands. Depth 10^3 only: matching `r ...` against the remaining
+    // operands at every level makes 10^4 operands take two minutes
+    "recursive-macro-use",
 ];
 const OPERATIONS: &[&str] = &["read", "quote-evaluate", "build", "keep-live-across-collection", "equal", "write", "drop", "display-procedure"];
 
@@ -50,7 +54,7 @@ fn applicable(dir: &str, op: &str) -> bool {
     match op {
         "read" | "quote-evaluate" | "drop" => data || (matches!(dir, "nested-expression" | "wide-application" | "long-body") && op != "quote-evaluate"),
         "build" => true,
-        "keep-live-across-collection" => !matches!(dir, "nested-expression" | "non-tail-recursion" | "wide-application" | "long-body"),
+        "keep-live-across-collection" => !matches!(dir, "nested-expression" | "non-tail-recursion" | "wide-application" | "long-body" | "recursive-macro-use"),
         "equal" | "write" | "display-procedure" => data,
         _ => false,
     }
@@ -94,6 +98,11 @@ fn builder(dir: &str, d: u64, var: &str) -> String {
         "continuation-chain" => format!("(define (step prev) (call/cc (lambda (k) k))) (define (mk n prev) (if (= n 0) prev (mk (- n 1) (step prev)))) (define {} (mk {} #f))", var, d),
         "non-tail-recursion" => format!("(define (deep n) (if (= n 0) 0 (+ 1 (deep (- n 1))))) (define {} (deep {}))", var, d),
         "nested-expression" | "wide-application" | "long-body" => format!("(define {} {})", var, text(dir, d)),
+        "recursive-macro-use" => format!(
+            "(define-syntax my-or (syntax-rules () ((_) #f) ((_ e) e) ((_ e r ...) (let ((t e)) (if t t (my-or r ...)))))) (define {} (my-or {}7))",
+            var,
+            "#f ".repeat(d as usize)
+        ),
         _ => String::new(),
     }
 }
@@ -297,6 +306,9 @@ pub fn run(ctx: &Ctx) -> i32 {
                 continue;
             }
             for d in DEPTHS {
+                if *dir == "recursive-macro-use" && *d != 1_000 {
+                    continue;
+                }
                 for th in THREADS {
                     // one cell needs about a minute (the compiler is quadratic in the nesting depth
                     // and the main thread's stack is just large enough): thorough tier only
